@@ -139,8 +139,17 @@ def run(ctx):
       variants.append((c, 'fed_prox', dict(base, mu=R(mu)), {'mu': mu}, 'rounds'))
   for c in mime_cases:
     variants.append((c, 'mime', dict(c['inst']), {'server_lr': float(island.frac(c['inst']['mime_slr']))}, 'mime'))
+  # a fixed instance with a round without any example under a stateful server optimizer (see known_findings.json)
+  fx = {'data': [[], [[2]]], 'init': [R(-2)], 'copt': island.opt_spec('sgd', 1), 'sopt': island.opt_spec('mom', 0.5, 0.5), 'mu': R(0), 'rounds': 3,
+        'cohorts': [[2, 1], [1], [1, 2]]}
+  fxh = {'bs': 2, 'epochs': 1, 'steps': None, 'drop': False, 'seed': 1, 'skip': True}
+  fx['stream'] = island.real_streams(fedjax, island.datasets(fedjax, fx['data']), island.hparams(fedjax, fxh))
+  fxc = {'inst': fx, 'h': fxh, 'exact': False, 'pool_a': True}
+  for nm, kw in (('fed_avg', {}), ('fed_prox', {'mu': 0.0}), ('hyp_cluster', {'clusters': 1}), ('apfl', {'coef': 0.5})):
+    variants.append((fxc, nm, dict(fx, mime_slr=R(1)), kw, 'rounds'))
   expected = island.oracle(ctx, [v[2] for v in variants], 'R')
   n_ok = 0
+  skip_checked = []
   for (c, name, oinst, kw, which), exp in zip(variants, expected):
     rec = algs.run_rounds(fedjax, name, c, order='listed' if rng.random() < .5 else 'reversed', **kw)
     inst = c['inst']
@@ -162,7 +171,15 @@ def run(ctx):
         bad = f'round {r + 1}: {label} gives {got_p}, the reduction demands {[str(island.frac(x)) for x in exp[which][r]]} = {want_p}'
         break
     if bad:
-      ctx.violation(f'replay:{name}{"(mu>0)" if kw.get("mu") else ""}:params', f'{bad} (hparams={c["h"]}, instance={oinst})', replay=cfg)
+      key = f'replay:{name}{"(mu>0)" if kw.get("mu") else ""}:params'
+      empty_round = any(sum(len(inst['data'][cl - 1]) for cl in co) == 0 for co in inst['cohorts'])
+      if name == 'hyp_cluster' and empty_round and inst['sopt']['kind'] == 'mom':
+        # is the run EXACTLY what the specification gives when a round without examples is skipped altogether?
+        alt = island.oracle(ctx, [oinst], f'skip{len(skip_checked)}', extra_consts={'ApplyOnEmpty': False})[0]
+        skip_checked.append(1)
+        if all(np.allclose(rec['rounds'][r], [float(island.frac(x)) for x in alt['rounds'][r]], rtol=1e-5, atol=1e-5) for r in range(inst['rounds'])):
+          key = 'hyp-cluster-skips-the-server-step-of-a-round-without-examples'
+      ctx.violation(key, f'{bad} (hparams={c["h"]}, instance={oinst})', replay=cfg)
     else:
       n_ok += 1
   ctx.trace_ok(n_ok)
